@@ -102,7 +102,7 @@ theorem p8_stepOffer (s : Stack) (tid : Tid) (t : TaskSt) (i : Nat) (hp : P8c (p
 theorem p8_instStop (s : Stack) (i : Nat) (hp : P8c (pi8 s)) : P8c (pi8 (s.instStop i)) := by
   unfold instStop
   p8
-  all_goals (rename_i tid _; by_cases hc : (s.cancelTask (.offer i, tid)).tm.cyclicOfferDelay = 0 <;> simp only [hc, if_true, if_false] <;> p8)
+  all_goals (rename_i tid _; by_cases hc : ((s.logOffer i .stop).cancelTask (.offer i, tid)).tm.cyclicOfferDelay = 0 <;> simp only [hc, if_true, if_false] <;> p8)
 
 theorem p8_instHandleSubscribe (s : Stack) (i : Nat) (e : SDEntry) (a : Addr) (hp : P8c (pi8 s)) :
     P8c (pi8 (s.instHandleSubscribe i e a).1) := by
